@@ -9,13 +9,24 @@ theorem unescape_no_backslash : ∀ (s : Bytes), (∀ b ∈ s, b ≠ 92) → une
     rw [unescape_cons_ne b r (h b (by simp))]
     rw [unescape_no_backslash r (fun x hx => h x (by simp [hx]))]
 
-theorem parseInt64_none_of_quote (r : Bytes) : parseInt64 (34 :: r) = none := by
-  unfold parseInt64
-  split
-  · rename_i h; cases h
-  · rename_i h; injection h with h; cases h
-  · rename_i h; injection h with h; cases h
-  · simp [isDigit]
+theorem parseUint63_none_of_quote (r : Bytes) : parseUint63 (34 :: r) = none := by
+  unfold parseUint63
+  simp [isDigit]
+
+/-- a number below 2^63 is a fortiori a uint64 -/
+theorem parseUint64_of_parseUint63 (n : Bytes) (v : Nat) (h : parseUint63 n = some v) : parseUint64 n = some v := by
+  unfold parseUint63 at h
+  unfold parseUint64
+  by_cases h1 : n.isEmpty = true
+  · simp [h1] at h
+  · by_cases h2 : n.all isDigit = true
+    · simp only [h1, h2, if_true, Bool.false_eq_true, if_false] at h ⊢
+      by_cases h3 : decVal n < 2 ^ 63
+      · simp only [h3, if_true] at h
+        have : decVal n < 2 ^ 64 := by omega
+        simp only [this, if_true]; exact h
+      · simp [h3] at h
+    · simp [h1, h2] at h
 
 theorem asmUnquote_quoted (s : Bytes) : asmUnquote (34 :: (s ++ [34])) = unescape s := by
   unfold asmUnquote
@@ -51,21 +62,15 @@ theorem digits_no_backslash (n : Bytes) (h : n.all isDigit = true) : ∀ b ∈ n
   have := List.all_eq_true.mp h b hb
   subst hc; simp [isDigit] at this
 
-/-- names on which the decoder would mistake a bare printed name for a numeric ID: the bare spelling is
-    used (all identifier characters, not a uint64) and strconv.ParseInt reads it as a non-negative
-    number — only `-0`, `-00`, ... -/
-def ReadsAsID (n : Bytes) : Prop :=
-  n.all inTail = true ∧ parseUint64 n = none ∧ ∃ id, parseInt64 n = some id ∧ id ≥ 0
-
-/-- DECODING: for every non-empty name that is not read as an ID, decoding the printed body gives the name back
-    (all byte values, any length; quoting and \XX escapes included). -/
-theorem decode_nameBody (n : Bytes) (hne : n ≠ []) (hg : ¬ ReadsAsID n) : decodeIdentBody (nameBody n) = .name n := by
+/-- DECODING: for EVERY non-empty name, decoding the printed body gives the name back
+    (all byte values, any length; quoting and \XX escapes included) — never a numeric ID. -/
+theorem decode_nameBody (n : Bytes) (hne : n ≠ []) : decodeIdentBody (nameBody n) = .name n := by
   unfold nameBody
   cases hu : parseUint64 n with
   | some v =>
     simp only
     unfold decodeIdentBody
-    rw [parseInt64_none_of_quote, asmUnquote_quoted]
+    rw [parseUint63_none_of_quote, asmUnquote_quoted]
     have hd : n.all isDigit = true := by
       unfold parseUint64 at hu
       by_cases h1 : n.isEmpty = true
@@ -77,8 +82,10 @@ theorem decode_nameBody (n : Bytes) (hne : n ≠ []) (hg : ¬ ReadsAsID n) : dec
   | none =>
     simp only
     unfold escapeIdent
-    by_cases ht : n.all inTail = true
+    by_cases ht : (n.all inTail && !digitLedJunk n) = true
     · simp only [ht, if_true]
+      have ht' : n.all inTail = true := by
+        simp only [Bool.and_eq_true] at ht; exact ht.1
       unfold decodeIdentBody
       have hq : n.head? ≠ some 34 := by
         cases n with
@@ -86,35 +93,34 @@ theorem decode_nameBody (n : Bytes) (hne : n ≠ []) (hg : ¬ ReadsAsID n) : dec
         | cons a r =>
           simp only [List.head?_cons, ne_eq, Option.some.injEq]
           intro ha
-          have := List.all_eq_true.mp ht a (by simp)
+          have := List.all_eq_true.mp ht' a (by simp)
           subst ha; simp [inTail, inHead, isAlpha, isUpper, isLower, isDigit] at this
-      cases hp : parseInt64 n with
+      cases hp : parseUint63 n with
       | none => simp [asmUnquote_plain n hq]
       | some id =>
-        by_cases hid : id ≥ 0
-        · exact absurd ⟨ht, hu, id, hp, hid⟩ hg
-        · simp [hid, asmUnquote_plain n hq]
+        have := parseUint64_of_parseUint63 n id hp
+        rw [hu] at this; cases this
     · simp only [ht, if_false, Bool.false_eq_true]
       unfold decodeIdentBody
-      rw [parseInt64_none_of_quote, asmUnquote_quoted, unescape_escape _ inQuotedIdent_bs]
+      rw [parseUint63_none_of_quote, asmUnquote_quoted, unescape_escape _ inQuotedIdent_bs]
 
-theorem globalIdent_globalName (n : Bytes) (hne : n ≠ []) (hg : ¬ ReadsAsID n) :
+theorem globalIdent_globalName (n : Bytes) (hne : n ≠ []) :
     globalIdent (globalName n) = .ok (.name n) := by
-  rw [globalName_eq]; simp [globalIdent, decode_nameBody n hne hg]
+  rw [globalName_eq]; simp [globalIdent, decode_nameBody n hne]
 
-theorem localIdent_localName (n : Bytes) (hne : n ≠ []) (hg : ¬ ReadsAsID n) :
+theorem localIdent_localName (n : Bytes) (hne : n ≠ []) :
     localIdent (localName n) = .ok (.name n) := by
-  rw [localName_eq]; simp [localIdent, decode_nameBody n hne hg]
+  rw [localName_eq]; simp [localIdent, decode_nameBody n hne]
 
-/-- INJECTIVITY: distinct names never print alike (follows from decoding; stated for names outside the guard's exclusion) -/
-theorem globalName_injective (a b : Bytes) (ha : a ≠ []) (hb : b ≠ []) (ga : ¬ ReadsAsID a) (gb : ¬ ReadsAsID b)
+/-- INJECTIVITY: distinct names never print alike -/
+theorem globalName_injective (a b : Bytes) (ha : a ≠ []) (hb : b ≠ [])
     (h : globalName a = globalName b) : a = b := by
-  have h1 := globalIdent_globalName a ha ga
-  have h2 := globalIdent_globalName b hb gb
+  have h1 := globalIdent_globalName a ha
+  have h2 := globalIdent_globalName b hb
   rw [h] at h1; rw [h1] at h2
   injection h2 with h2; injection h2
 
-/-- the excluded class is real: the name `-0` is printed bare and decoded as ID 0 (recorded finding) -/
-theorem minus_zero_is_read_as_id : globalIdent (globalName [45, 48]) = .ok (.id 0) := by decide
+/-- regression witness of the repaired defect: the name `-0` now round-trips -/
+theorem minus_zero_is_a_name : globalIdent (globalName [45, 48]) = .ok (.name [45, 48]) := by decide
 
 end Llir.Enc
